@@ -32,7 +32,11 @@ for a, b, d in _BASE:
 # exact geometry in Fractions (oracle side; independent of the Coq model)
 # ------------------------------------------------------------------------------------------------
 def params(b):
-    """case box -> dict of exact Fractions"""
+    """case box -> dict of exact Fractions (lattice form p/r/s, or binary64 form pf/yaw/sf of the continuous stream)"""
+    if "pf" in b:
+        x, y, z = (Fraction(v) for v in b["pf"])
+        w, l, h = (Fraction(v) for v in b["sf"])
+        return {"x": x, "y": y, "z": z, "c": Fraction(math.cos(b["yaw"])), "s": Fraction(math.sin(b["yaw"])), "w": w, "l": l, "h": h}
     x, y, z = (Fraction(k, 8) for k in b["p"])
     c, s = Fraction(b["r"][0], b["r"][2]), Fraction(b["r"][1], b["r"][2])
     w, l, h = (Fraction(k, 8) for k in b["s"])
@@ -351,6 +355,21 @@ def gen_pair(rng, tag):
     return {"p": ep, "r": list(er), "s": es}, {"p": gp, "r": list(gr), "s": gs}
 
 
+def gen_pair_float(rng):
+    """continuous stream: arbitrary binary64 centres, sizes (log-uniform 0.05 .. 30 m) and yaw angles"""
+    def size():
+        return [math.exp(rng.uniform(math.log(0.05), math.log(30.0))) for _ in range(3)]
+
+    gs, es = size(), size()
+    gp = [rng.uniform(-120, 120), rng.uniform(-120, 120), rng.uniform(-3, 3)]
+    k = rng.choice((0.0, 0.3, 1.0, 3.0))
+    ep = [gp[0] + k * rng.uniform(-1, 1) * max(gs[1], es[1]), gp[1] + k * rng.uniform(-1, 1) * max(gs[0], es[0]),
+          gp[2] + rng.uniform(-1, 1) * max(gs[2], es[2])]
+    gy = rng.uniform(-math.pi, math.pi)
+    ey = gy + rng.choice((0.0, rng.uniform(-0.3, 0.3), rng.uniform(-math.pi, math.pi)))
+    return {"pf": ep, "yaw": ey, "sf": es}, {"pf": gp, "yaw": gy, "sf": gs}
+
+
 TAGS = [("typical", 10), ("nested", 3), ("touching", 3), ("corner_touching", 1), ("disjoint", 2), ("near_disjoint", 3),
         ("sliver", 3), ("identical", 2), ("height", 3), ("tie", 3)]
 
@@ -400,14 +419,23 @@ class Box3dCorr(Corr):
                 c = {"tag": "regression", "e": e, "g": g, "m": m}
                 if acceptable(c):
                     out.append(c)
+        n_reg = len(out)
         pool = [t for t, wgt in TAGS for _ in range(wgt)]
-        while len(out) < n:
+        n_float = n // 25
+        while len(out) < n - n_float:
             tag = rng.choice(pool)
             e, g = gen_pair(rng, tag)
             c = {"tag": tag, "e": e, "g": g, "m": _mot(rng)}
             if acceptable(c):
                 out.append(c)
-        return out
+        while len(out) < n:
+            e, g = gen_pair_float(rng)
+            c = {"tag": "continuous", "e": e, "g": g, "m": _mot(rng)}
+            if acceptable(c):
+                out.append(c)
+        head, tail = out[:n_reg], out[n_reg:]
+        rng.shuffle(tail)                      # spread the (costlier) continuous cases over the coqc shards
+        return head + tail
 
     # -- implementation -------------------------------------------------------------------------
     def run_impl(self, case):
@@ -442,15 +470,12 @@ class Box3dCorr(Corr):
         def chk(e, g, o, ordered):
             if min(o["gl"], o["gr"], o["el"], o["er"]) < 0:
                 return "false"
-            return (f"check_center {e} {g} {qlit(o['cd'])} && check_plane {e} {g} {qlit(o['pd'])} && "
-                    f"check_plane_lr {g} {blit(ordered)} {o['gl']} {o['gr']} && "
-                    f"check_plane_lr {g} {blit(ordered)} {o['el']} {o['er']} && "
-                    f"check_iou2 {e} {g} {qlit(o['i2'])} && check_iou3 {e} {g} {qlit(o['i3'])}")
+            return (f"check_scores {e} {g} {blit(ordered)} {qlit(o['cd'])} {qlit(o['pd'])} {qlit(o['i2'])} {qlit(o['i3'])} "
+                    f"{o['gl']} {o['gr']} {o['el']} {o['er']}")
 
         parts = [chk("e", "g", obs, self._ordered(E, G)),
                  chk("(move_box m e)", "(move_box m g)", obs["mv"], self._ordered(Em, Gm)),
-                 f"check_center g e {qlit(obs['sw']['cd'])} && check_iou2 g e {qlit(obs['sw']['i2'])} && "
-                 f"check_iou3 g e {qlit(obs['sw']['i3'])}"]
+                 f"check_swapped e g {qlit(obs['sw']['cd'])} {qlit(obs['sw']['i2'])} {qlit(obs['sw']['i3'])}"]
         if E["s"] == 0 and G["s"] == 0 and E["c"] == 1 and G["c"] == 1:
             parts.append("check_aa_closed_form e g")
         return (f"(let e := {self._box(case['e'])} in let g := {self._box(case['g'])} in let m := {self._mot(case['m'])} in\n  "
@@ -552,12 +577,12 @@ class Box3dCorr(Corr):
             if "__harness_exception__" in o:
                 continue
             d["tags"][c["tag"]] = d["tags"].get(c["tag"], 0) + 1
-            aa = c["e"]["r"][1] == 0 and c["g"]["r"][1] == 0
+            E, G = params(c["e"]), params(c["g"])
+            aa = E["s"] == 0 and G["s"] == 0
             d["axis_aligned_pairs" if aa else "rotated_pairs"] += 1
             d["iou2_zero" if o["i2"] == 0 else ("iou2_one" if abs(o["i2"] - 1) < 1e-12 else "iou2_between")] += 1
             if o["i3"] == 0 and o["i2"] > 0:
                 d["iou3_zero_iou2_pos"] += 1
-            E, G = params(c["e"]), params(c["g"])
             cands, tie23, _, cr = plane_candidates(E, G)
             if tie23:
                 d["exact_tie_2nd_3rd"] += 1
@@ -567,8 +592,8 @@ class Box3dCorr(Corr):
                 d["lr_compared_ordered"] += 1
             if c["m"]["t"][0] == 0 and c["m"]["t"][1] == 0:
                 d["pure_rotation_motions"] += 1
-            for b in (c["e"], c["g"]):
-                d["max_size_ratio"] = max(d["max_size_ratio"], max(b["s"][:2]) / min(b["s"][:2]))
+            for B in (E, G):
+                d["max_size_ratio"] = max(d["max_size_ratio"], float(max(B["w"], B["l"]) / min(B["w"], B["l"])))
         return d
 
 
@@ -731,7 +756,8 @@ class C06(Prop):
                   "conditional on the recorded hypotheses about `inter`. Distances are compared squared (no sqrt in Q). Yaw-only boxes; "
                   "BASE_LINK frame; BOUNDING_BOX shapes.")
     rule = ("box3d: pairs of real DynamicObjects on the k/8 lattice with yaw from 32 rational circle points + 4 axis directions, streams "
-            "typical/nested/touching/corner-touching/disjoint/near-disjoint/sliver (to 1:200)/identical/height/tie, each also swapped and after a "
+            "typical/nested/touching/corner-touching/disjoint/near-disjoint/sliver (to 1:200)/identical/height/tie + a continuous stream (1/25 of "
+            "the cases: arbitrary binary64 centres, yaw angles and sizes 0.05..30 m, passed to Coq as exact rationals), each also swapped and after a "
             "common rigid motion (half of them pure rotations about the ego); roi2d: integer ROI pairs incl. odd/even sizes, 1-pixel ROIs, "
             "touching, nested, each also swapped and translated; non-trivial = different boxes with 0 < IoU < 1 or a positive distance")
     assumptions = [
@@ -761,5 +787,5 @@ class C06(Prop):
         return [Box3dCorr(), Roi2dCorr()]
 
 
-READY = False
+READY = True
 PROP = C06()
